@@ -137,7 +137,16 @@ def feature_aggmany(t):
     return False
 
 
-FEATURES = {"selfjoin": feature_selfjoin, "aggmany": feature_aggmany}
+def feature_outerelem(t):
+    """A Select whose body is just a variable bound further OUT (seq.Select(k: j) with j an enclosing parameter): a
+    sequence that repeats an outer value once per element."""
+    for n in _subterms(t):
+        if n["k"] == "Select" and len(n["ch"]) == 2 and n["ch"][1]["k"] == "Var" and n["ch"][1]["a"] != n["a"]:
+            return True
+    return False
+
+
+FEATURES = {"selfjoin": feature_selfjoin, "aggmany": feature_aggmany, "outerelem": feature_outerelem}
 
 
 class PFindings:
